@@ -35,9 +35,10 @@ type localCall struct {
 	done      bool
 	their     *theirQuestion
 	base      *localCall // pipelined on this call's answer
-	seq       int        // position among the calls pipelined on base
-	npiped    int
-	delivered int // highest seq+1 of the calls pipelined on this one that reached an application capability
+	path      uint16     // ... through this result pointer (0 or 1)
+	seq       int        // position among the calls pipelined on base through that pointer
+	npiped    [2]int
+	delivered [2]int // per result pointer: highest seq+1 of the calls pipelined on this one that reached an application capability
 }
 
 type run struct {
@@ -409,7 +410,17 @@ func (r *run) callerTask(id int, nops int) {
 	}
 	for i := 0; i < nops && !s.Failed(); i++ {
 		r.ops++
-		switch op := s.Choice("caller-op", 9); {
+		// (tapes of the echo=defer generation draw from 11: 9 and 10 are pipelined calls as well, so that
+		// one answer often has several calls pipelined on it, before and after its Return)
+		nOps := 9
+		if r.deferEcho {
+			nOps = 11
+		}
+		op := s.Choice("caller-op", nOps)
+		if op >= 9 {
+			op = 4
+		}
+		switch {
 		case op == 0 || len(clients) == 0:
 			s.Logf("caller %d: Bootstrap", id)
 			c := r.conn.Bootstrap(ctx)
@@ -459,15 +470,31 @@ func (r *run) callerTask(id int, nops int) {
 				continue
 			}
 			base := cands[s.Choice("caller-base", len(cands))]
-			lc := &localCall{token: r.newToken(), via: "pipeline", base: base, seq: base.npiped}
-			base.npiped++
+			// (tapes of the echo=defer generation: calls are pipelined through result pointer 0 or 1, so
+			// that one answer has several called paths - the peer may answer with a capability of its own
+			// in pointer 0 and one of the Conn's exports in pointer 1, and each path needs its own embargo)
+			var path uint16
+			if r.deferEcho {
+				// (the second pointer is preferred once the first has been called: "an earlier called
+				// path that is not the loop-back, then several calls on the one that is" is the shape
+				// that needs one embargo per path)
+				switch n := s.Choice("caller-path", 4); {
+				case base.npiped[0] > 0 && n != 0, base.npiped[0] == 0 && n >= 2:
+					path = 1
+				}
+			}
+			lc := &localCall{token: r.newToken(), via: "pipeline", base: base, path: path, seq: base.npiped[path]}
+			base.npiped[path]++
+			if path == 1 {
+				s.Probe("local_pipelined_call_on_second_pointer")
+			}
 			if base.their != nil && base.their.returnSent {
 				s.Probe("local_pipelined_call_after_peer_returned")
 			}
 			lc.ctx, lc.cancel = context.WithCancel(ctx)
 			r.locals[lc.token] = lc
 			s.Logf("caller %d: PipelineSend token=%d on answer of %d", id, lc.token, base.token)
-			lc.ans, lc.rel = base.ans.PipelineSend(lc.ctx, []capnp.PipelineOp{{Field: 0}}, capnp.Send{Method: capnp.Method{InterfaceID: ifaceID, MethodID: 0}, ArgsSize: capnp.ObjectSize{DataSize: 16, PointerCount: 2}, PlaceArgs: r.place(payloadSpec{token: lc.token})})
+			lc.ans, lc.rel = base.ans.PipelineSend(lc.ctx, []capnp.PipelineOp{{Field: path}}, capnp.Send{Method: capnp.Method{InterfaceID: ifaceID, MethodID: 0}, ArgsSize: capnp.ObjectSize{DataSize: 16, PointerCount: 2}, PlaceArgs: r.place(payloadSpec{token: lc.token})})
 			outs = append(outs, lc)
 			s.Probe("local_pipelined_call")
 		case op == 5: // wait for a result
